@@ -1167,6 +1167,11 @@ def wfFromL (sep : Char) : Bool → Bool → List LSeg → Prop
   | ac, mm, l :: r => l.WF sep ac ∧ (l.isInter = true → mm = false) ∧
       wfFromL sep l.isColl (mm && l.isEmptyColl) r
 
+/-- whether the last segment of the list (or, for the empty list, the one before) is a collector -/
+def lastAc : Bool → List LSeg → Bool
+  | ac, [] => ac
+  | _, l :: r => lastAc l.isColl r
+
 theorem run_texts {sep : Char} (hsep : sep = '.' ∨ sep = '/') (strip : Bool) :
     ∀ (ls : List LSeg) (ac mm : Bool) (st : PState) (ss : List Seg) (lead : Bool),
     Inv ac st ss →
@@ -1174,18 +1179,18 @@ theorem run_texts {sep : Char} (hsep : sep = '.' ∨ sep = '/') (strip : Bool) :
       (∀ l ∈ ls.head?, l.isTop = true → st.seekingAnchorMark = true)) →
     (mm = false → st.seekingAnchorMark = false) →
     wfFromL sep ac mm ls →
-    ∃ st' ac', run sep strip st (textFrom sep lead ls) = .ok st' ∧
-      Inv ac' st' (ss ++ ls.map (LSeg.seg strip)) := by
+    ∃ st', run sep strip st (textFrom sep lead ls) = .ok st' ∧
+      Inv (lastAc ac ls) st' (ss ++ ls.map (LSeg.seg strip)) := by
   intro ls
   induction ls with
-  | nil => intro ac mm st ss lead h _ _ _; exact ⟨st, ac, by simp [textFrom, run], by simpa using h⟩
+  | nil => intro ac mm st ss lead h _ _ _; exact ⟨st, by simp [textFrom, run], by simpa [lastAc] using h⟩
   | cons l r ih =>
     intro ac mm st ss lead h hlead hmm hwf
     obtain ⟨hw1, hw2, hw3⟩ := hwf
     obtain ⟨st1, hr1, hi1, hm1⟩ := sim_any hsep strip h lead l
       (fun hl => ⟨(hlead hl).1, (hlead hl).2.1, (hlead hl).2.2 l (by simp)⟩)
       (fun hi => hmm (hw2 hi)) hw1
-    obtain ⟨st2, ac2, hr2, hi2⟩ := ih l.isColl (mm && l.isEmptyColl) st1 (ss ++ [l.seg strip]) true
+    obtain ⟨st2, hr2, hi2⟩ := ih l.isColl (mm && l.isEmptyColl) st1 (ss ++ [l.seg strip]) true
       hi1 (by simp) (fun hf => by
         by_cases hs : st1.seekingAnchorMark = true
         · obtain ⟨h1, h2⟩ := hm1 hs
@@ -1193,7 +1198,7 @@ theorem run_texts {sep : Char} (hsep : sep = '.' ∨ sep = '/') (strip : Bool) :
           · rw [hmm hmv] at h2; cases h2
           · simp [hmv, h1] at hf
         · simpa using hs) hw3
-    refine ⟨st2, ac2, ?_, by simpa using hi2⟩
+    refine ⟨st2, ?_, by simpa [lastAc] using hi2⟩
     simp only [textFrom]
     rw [run_append_ok hr1]
     exact hr2
@@ -1223,58 +1228,50 @@ theorem text_head_amp {sep : Char} {l : LSeg} (hwf : l.WF sep false) (hs : sep =
   | keyword inv kw ps => simp [LSeg.text, LSeg.isTop]
   | _ => simp [LSeg.text, sepIf, LSeg.isTop]
 
-/-- **The engine.**  The parser model reads a loosely written, well-formed list of segments back as
-exactly those segments — the characters of the texts with `strip = true` (`escaped`), the texts as
-written with `strip = false` (`unescaped`). -/
-theorem parseWith_texts (fslash strip : Bool) (ls : List LSeg)
+theorem text_ne {sep : Char} {l : LSeg} (hw : l.WF sep false) : l.text sep false ≠ [] := by
+  cases l <;> try simp [LSeg.text, sepIf]
+  case key ts =>
+    obtain ⟨hne, _⟩ := hw
+    cases ts with
+    | nil => exact absurd rfl hne
+    | cons t ts => obtain ⟨e, c⟩ := t; cases e <;> simp [tokText, Tok.text]
+  case anchor top ts => cases top <;> simp [LSeg.text, sepIf]
+
+theorem textAll_head (l : LSeg) (r : List LSeg) (hw : l.WF '.' false) (x : Str) :
+    (textAll false (l :: r) ++ x)[0]? = (l.text '.' false).head? := by
+  cases hx : l.text '.' false with
+  | nil => exact absurd hx (text_ne hw)
+  | cons c k => simp [textAll, textFrom, hx]
+
+/-- the parser loop over a whole loosely written path text, from the initial state of
+`_parse_path`; `b` is the initial `seeking_anchor_mark` (for dot notation: the text starts with `&`) -/
+theorem run_textAll (fslash strip : Bool) (ls : List LSeg)
     (hwf : wfFromL (if fslash then '/' else '.') false
       (fslash || (ls.head?.map LSeg.isTop).getD false) ls)
-    (hn : normOriginal (textAll fslash ls) = textAll fslash ls) :
-    parseWith fslash strip (textAll fslash ls) = .ok (ls.map (LSeg.seg strip)) := by
+    (b : Bool) (hb : fslash = false → b = decide ((textAll false ls)[0]? = some '&')) :
+    ∃ st2, run (if fslash then '/' else '.') strip { seekingAnchorMark := b } (textAll fslash ls)
+        = .ok st2 ∧ Inv (lastAc false ls) st2 (ls.map (LSeg.seg strip)) := by
   cases fslash with
   | true =>
-    have key : ∀ b : Bool, ∃ st2 ac2, run '/' strip { seekingAnchorMark := b } (textAll true ls)
-        = .ok st2 ∧ Inv ac2 st2 (ls.map (LSeg.seg strip)) := by
-      intro b
-      obtain ⟨st1, hs1, hi1, h1, h2, h3⟩ := step_sep (sep := '/') (Or.inr rfl) strip (init_inv b)
-      obtain ⟨st2, ac2, hr2, hi2⟩ := run_texts (sep := '/') (Or.inr rfl) strip ls false true st1 []
-        false hi1 (fun _ => ⟨h1, h2, fun _ _ _ => h3⟩) (by simp) (by simpa using hwf)
-      refine ⟨st2, ac2, ?_, by simpa using hi2⟩
-      simp only [textAll, ↓reduceIte, run, hs1]
-      exact hr2
-    unfold parseWith
-    simp only [hn]
-    have hne : textAll true ls ≠ [] := by simp [textAll]
-    simp only [hne, ↓reduceIte]
-    have fin : ∀ b : Bool, (match run '/' strip { seekingAnchorMark := b } (textAll true ls) with
-        | .error e => (Except.error e : Except PErr (List Seg))
-        | .ok st => finish st) = .ok (ls.map (LSeg.seg strip)) := by
-      intro b
-      obtain ⟨st2, ac2, hr2, hi2⟩ := key b
-      simp only [hr2]
-      exact finish_of_inv hi2
-    exact fin _
+    obtain ⟨st1, hs1, hi1, h1, h2, h3⟩ := step_sep (sep := '/') (Or.inr rfl) strip (init_inv b)
+    obtain ⟨st2, hr2, hi2⟩ := run_texts (sep := '/') (Or.inr rfl) strip ls false true st1 []
+      false hi1 (fun _ => ⟨h1, h2, fun _ _ _ => h3⟩) (by simp) (by simpa using hwf)
+    refine ⟨st2, ?_, by simpa using hi2⟩
+    simp only [textAll, ↓reduceIte, run, hs1]
+    exact hr2
   | false =>
+    have hb' := hb rfl
+    subst hb'
     cases ls with
-    | nil => simp [textAll, textFrom, parseWith, normOriginal]
+    | nil => exact ⟨_, rfl, init_inv _⟩
     | cons l r =>
       simp only [Bool.false_eq_true, ↓reduceIte, Bool.false_or, List.head?_cons, Option.map_some,
         Option.getD_some] at hwf
       have hw1 := hwf.1
       have hamp := text_head_amp hw1 (Or.inl rfl)
       have hhead : (textAll false (l :: r))[0]? = (l.text '.' false).head? := by
-        have hne : l.text '.' false ≠ [] := by
-          cases l <;> try simp [LSeg.text, sepIf]
-          case key ts =>
-            obtain ⟨hne, _⟩ := hw1
-            cases ts with
-            | nil => exact absurd rfl hne
-            | cons t ts => obtain ⟨e, c⟩ := t; cases e <;> simp [tokText, Tok.text]
-          case anchor top ts => cases top <;> simp [LSeg.text, sepIf]
-        cases hx : l.text '.' false with
-        | nil => exact absurd hx hne
-        | cons c k => simp [textAll, textFrom, hx]
-      obtain ⟨st2, ac2, hr2, hi2⟩ := run_texts (sep := '.') (Or.inl rfl) strip (l :: r) false l.isTop
+        simpa using textAll_head l r hw1 []
+      obtain ⟨st2, hr2, hi2⟩ := run_texts (sep := '.') (Or.inl rfl) strip (l :: r) false l.isTop
         { seekingAnchorMark := (textAll false (l :: r))[0]? = some '&' } [] false (init_inv _)
         (fun _ => ⟨rfl, rfl, fun l' hl' ht => by
           simp at hl'; subst hl'
@@ -1286,27 +1283,91 @@ theorem parseWith_texts (fslash strip : Bool) (ls : List LSeg)
           simp only [decide_eq_false_iff_not]
           intro hc
           rw [hamp.mp hc] at hf; cases hf) hwf
-      unfold parseWith
-      simp only [hn]
-      have hne : textAll false (l :: r) ≠ [] := by
-        intro h0
-        rw [h0] at hhead
-        have : (l.text '.' false).head? = none := by simpa using hhead.symm
-        have hnil : l.text '.' false = [] := by simpa using this
-        simp [textAll, textFrom] at h0
-        cases l <;> simp [LSeg.text, sepIf] at hnil
-        case key ts =>
-          obtain ⟨hne, _⟩ := hw1
-          cases ts with
-          | nil => exact absurd rfl hne
-          | cons t ts => obtain ⟨e, c⟩ := t; cases e <;> simp [tokText, Tok.text] at hnil
-        case anchor top ts => cases top <;> simp [LSeg.text, sepIf] at hnil
-      simp only [hne, ↓reduceIte]
-      have : run '.' strip { seekingAnchorMark := (textAll false (l :: r))[0]? = some '&' }
-          (textAll false (l :: r)) = .ok st2 := by
-        simpa [textAll] using hr2
-      simp only [Bool.false_eq_true, false_and, ↓reduceIte] at this ⊢
-      simp only [this]
-      simpa using finish_of_inv hi2
+      exact ⟨st2, by simpa [textAll] using hr2, by simpa using hi2⟩
+
+theorem textAll_ne (fslash : Bool) (ls : List LSeg)
+    (hwf : wfFromL (if fslash then '/' else '.') false
+      (fslash || (ls.head?.map LSeg.isTop).getD false) ls) (hne : ls ≠ []) :
+    textAll fslash ls ≠ [] := by
+  cases fslash with
+  | true => simp [textAll]
+  | false =>
+    cases ls with
+    | nil => exact absurd rfl hne
+    | cons l r =>
+      simp only [Bool.false_eq_true, ↓reduceIte, Bool.false_or, List.head?_cons, Option.map_some,
+        Option.getD_some] at hwf
+      have := text_ne hwf.1
+      simp [textAll, textFrom, this]
+
+/-- **The engine.**  The parser model reads a loosely written, well-formed list of segments back as
+exactly those segments — the characters of the texts with `strip = true` (`escaped`), the texts as
+written with `strip = false` (`unescaped`). -/
+theorem parseWith_texts (fslash strip : Bool) (ls : List LSeg)
+    (hwf : wfFromL (if fslash then '/' else '.') false
+      (fslash || (ls.head?.map LSeg.isTop).getD false) ls)
+    (hn : normOriginal (textAll fslash ls) = textAll fslash ls) :
+    parseWith fslash strip (textAll fslash ls) = .ok (ls.map (LSeg.seg strip)) := by
+  by_cases hT : textAll fslash ls = []
+  · have hls : ls = [] := by
+      by_cases hne : ls = []
+      · exact hne
+      · exact absurd hT (textAll_ne fslash ls hwf hne)
+    subst hls
+    rw [hT]
+    simp [parseWith, normOriginal]
+  · unfold parseWith
+    simp only [hn]
+    simp only [hT, ↓reduceIte]
+    obtain ⟨st2, hr2, hi2⟩ := run_textAll fslash strip ls hwf
+      ((textAll fslash ls)[if fslash = true ∧ (textAll fslash ls).length > 1 then 1 else 0]?
+        = some '&') (by
+      intro hf; subst hf; simp)
+    simp only [hr2]
+    exact finish_of_inv hi2
+
+/-- …and a text to which a separator and one more loosely written segment have been appended (what
+`YAMLPath.append` builds).  After the separator the parser looks for an anchor mark, so the added
+segment must not be an `&` collector. -/
+theorem parseWith_texts_snoc (fslash strip : Bool) (ls : List LSeg) (l : LSeg)
+    (hwf : wfFromL (if fslash then '/' else '.') false
+      (fslash || (ls.head?.map LSeg.isTop).getD false) ls) (hne : ls ≠ [])
+    (hwl : l.WF (if fslash then '/' else '.') (lastAc false ls)) (hni : l.isInter = false)
+    (o1 : Str)
+    (ho : o1 = textAll fslash ls ++
+      (if fslash then '/' else '.') :: l.text (if fslash then '/' else '.') false)
+    (hn : normOriginal o1 = o1) :
+    parseWith fslash strip o1 = .ok (ls.map (LSeg.seg strip) ++ [l.seg strip]) := by
+  have hsep : (if fslash then '/' else '.') = '.' ∨ (if fslash then '/' else '.') = '/' := by
+    cases fslash <;> simp
+  have hT := textAll_ne fslash ls hwf hne
+  have ho1 : o1 ≠ [] := by rw [ho]; simp [hT]
+  unfold parseWith
+  simp only [hn]
+  simp only [ho1, ↓reduceIte]
+  obtain ⟨st2, hr2, hi2⟩ := run_textAll fslash strip ls hwf
+    (o1[if fslash = true ∧ o1.length > 1 then 1 else 0]? = some '&') (by
+      intro hf; subst hf
+      cases ls with
+      | nil => exact absurd rfl hne
+      | cons l0 r =>
+        simp only [Bool.false_eq_true, ↓reduceIte, Bool.false_or, List.head?_cons, Option.map_some,
+          Option.getD_some] at hwf
+        have h1 := textAll_head l0 r hwf.1 []
+        have h2 := textAll_head l0 r hwf.1 ('.' :: l.text '.' false)
+        simp only [List.append_nil] at h1
+        simp only [Bool.false_eq_true, false_and, ↓reduceIte, ho, h1, h2])
+  obtain ⟨st3, hs3, hi3, h31, h32, h33⟩ := step_sep hsep strip hi2
+  obtain ⟨st4, hr4, hi4, _⟩ := sim_any hsep strip hi3 false l (fun _ => ⟨h31, h32, fun _ => h33⟩)
+    (fun h => by rw [hni] at h; cases h) hwl
+  have : run (if fslash then '/' else '.') strip
+      { seekingAnchorMark := o1[if fslash = true ∧ o1.length > 1 then 1 else 0]? = some '&' } o1
+      = .ok st4 := by
+    conv => lhs; arg 4; rw [ho]
+    rw [run_append_ok hr2]
+    simp only [run, hs3]
+    exact hr4
+  simp only [this]
+  exact finish_of_inv hi4
 
 end Ypv.Sim
